@@ -1,8 +1,9 @@
 (* Link/ReluCallLink.v -- quantized_relu.__call__ (no sigmoid option) as regenerated on every run (coq/gen/ReluCallGen.v):
    * the bound of the unquantized surrogate under is_quantized_clip is 2^integer - 2^(integer - non-sign bits), the largest code
      (the model's qr_act uses exactly this bound) -- for the plain and the leaky form;
-   * for the plain ReLU (negative_slope = 0) the quantized value xq IS the model value qr_val of Quant/Fixed.v, for every
-     configuration (bits, integer, is_quantized_clip, relu_upper_bound given or not) and every rational input. *)
+   * for the plain ReLU (negative_slope = 0) and for the leaky ReLU with negative_slope = 2^-s (0 <= s <= non-sign bits) the
+     quantized value xq IS the model value qr_val of Quant/Fixed.v, for every configuration (bits, integer, is_quantized_clip,
+     relu_upper_bound given or not) and every rational input. *)
 From Coq Require Import ZArith Bool Lia ZifyBool.
 From QV Require Import Base.ZQ Base.FL Quant.Fixed Quant.FixedThm Quant.Po2Thm Quant.ReluSrc Link.QBitsLink.
 From QVGen Require Import ReluCallGen.
@@ -93,6 +94,122 @@ Proof.
     split.
     - unfold qr_code, qr_se. rewrite Sl. unfold qr_hi. fold r. apply scale_back; assumption.
     - unfold rmul. cbn [rden snd]. assert (0 < rden (rpow2 (qr_int c))) by (unfold rpow2; cbn [rden snd]; apply sc_den_pos; lia). nia. }
+  destruct Cv as [Cv Cd].
+  assert (Vd : 0 < rden v) by (unfold v, rscale; cbn [rden snd]; apply sc_den_pos; cbn; lia).
+  unfold qr_val. fold v. rewrite Hr. destruct has_rub; cbn [andb].
+  - destruct (qr_qclip c); cbn [negb]; [exact Cv|].
+    unfold rmin. rewrite (rle_req_l core v rub Cv Cd Vd Ud).
+    assert (Q : rlt rub v = negb (rle v rub)) by (unfold rlt, rle; lia). rewrite Q.
+    destruct (rle v rub); cbn [negb]; [exact Cv | unfold req; lia].
+  - exact Cv.
+Qed.
+
+(* ------------------------------------------------------------------------------------------------------------------ *)
+(* the leaky form: negative_slope = 2^-s given as the rational (1, 2^s), 0 <= s <= non-sign bits                        *)
+Lemma rden_rmul a b : rden (rmul a b) = rden a * rden b. Proof. reflexivity. Qed.
+Lemma rnum_rmul a b : rnum (rmul a b) = rnum a * rnum b. Proof. reflexivity. Qed.
+Lemma rmul_assoc' p s y : rmul (rmul p s) y = rmul p (rmul s y).
+Proof. unfold rmul. cbn [rnum rden fst snd]. f_equal; ring. Qed.
+
+Lemma round_p2 a b n i s : 0 < b -> 0 <= n -> 0 <= s ->
+  rround (rmul (rdiv (rmul (a, b) (rpow2 n)) (rpow2 i)) (1, 2 ^ s)) = rhe (sc_num a (n - i - s)) (sc_den b (n - i - s)).
+Proof.
+  intros Hb Hn Hs. rewrite (rpow2_nn n Hn).
+  assert (Pn : 0 < 2 ^ n) by (apply Z.pow_pos_nonneg; lia). assert (Ps : 0 < 2 ^ s) by (apply Z.pow_pos_nonneg; lia).
+  destruct (Z_lt_le_dec i 0) as [Ni|Pi].
+  - rewrite (rpow2_neg i Ni). assert (Pi' : 0 < 2 ^ (- i)) by (apply Z.pow_pos_nonneg; lia).
+    unfold rround, rdiv, rinv, rmul. cbn [rnum rden fst snd]. replace (0 <? 1) with true by lia. cbn [rnum rden fst snd].
+    apply rhe_ext; [nia | apply sc_den_pos; exact Hb |].
+    unfold sc_num, sc_den. destruct (0 <=? n - i - s) eqn:E.
+    + assert (P : 2 ^ n * 2 ^ (- i) = 2 ^ (n - i - s) * 2 ^ s) by (rewrite <- !q2add by lia; f_equal; lia).
+      replace (a * (1 * 2 ^ n) * (1 * 2 ^ (- i)) * 1 * b) with (a * b * (2 ^ n * 2 ^ (- i))) by ring. rewrite P. ring.
+    + assert (P : 2 ^ n * 2 ^ (- i) * 2 ^ (- (n - i - s)) = 2 ^ s) by (rewrite <- !q2add by lia; f_equal; lia).
+      replace (a * (1 * 2 ^ n) * (1 * 2 ^ (- i)) * 1 * (b * 2 ^ (- (n - i - s)))) with (a * b * (2 ^ n * 2 ^ (- i) * 2 ^ (- (n - i - s)))) by ring.
+      rewrite P. ring.
+  - rewrite (rpow2_nn i Pi). assert (Pi' : 0 < 2 ^ i) by (apply Z.pow_pos_nonneg; lia).
+    unfold rround, rdiv, rinv, rmul. cbn [rnum rden fst snd]. replace (0 <? 1 * 2 ^ i) with true by lia. cbn [rnum rden fst snd].
+    apply rhe_ext; [nia | apply sc_den_pos; exact Hb |].
+    unfold sc_num, sc_den. destruct (0 <=? n - i - s) eqn:E.
+    + assert (P : 2 ^ n = 2 ^ (n - i - s) * 2 ^ i * 2 ^ s) by (rewrite <- !q2add by lia; f_equal; lia).
+      rewrite P. ring.
+    + assert (P : 2 ^ n * 2 ^ (- (n - i - s)) = 2 ^ i * 2 ^ s) by (rewrite <- !q2add by lia; f_equal; lia).
+      replace (a * (1 * 2 ^ n) * 1 * 1 * (b * 2 ^ (- (n - i - s)))) with (a * b * (2 ^ n * 2 ^ (- (n - i - s)))) by ring. rewrite P. ring.
+Qed.
+
+(* clip(r * 2^s / 2^n, -1, 0) is clip(r, -2^(n-s), 0) / 2^(n-s) *)
+Lemma clip_neg r n s : 0 <= s <= n ->
+  let y := rclip (rneg (1, 1)) (0, 1) (rmul (rofZ r) (rdiv (rofZ 1) (rmul (1, 2 ^ s) (rpow2 n)))) in
+  0 < rden y /\ rnum y * 2 ^ (n - s) = clip (- 2 ^ (n - s)) 0 r * rden y.
+Proof.
+  intros [Hs Hn]. cbv zeta. rewrite (rpow2_nn n ltac:(lia)).
+  assert (Pn : 0 < 2 ^ n) by (apply Z.pow_pos_nonneg; lia). assert (Ps : 0 < 2 ^ s) by (apply Z.pow_pos_nonneg; lia).
+  assert (Pd : 0 < 2 ^ (n - s)) by (apply Z.pow_pos_nonneg; lia).
+  assert (P : 2 ^ n = 2 ^ (n - s) * 2 ^ s) by (rewrite <- q2add by lia; f_equal; lia).
+  unfold rdiv, rinv, rmul, rofZ. cbn [rnum rden fst snd]. replace (0 <? 1 * (1 * 2 ^ n)) with true by lia. cbn [rnum rden fst snd].
+  unfold rclip, rmin, rmax, rlt, rneg, clip. cbn [rnum rden fst snd].
+  match goal with |- context [if ?c then (- (1), 1) else _] => destruct c eqn:E1 end; cbn [rnum rden fst snd].
+  - match goal with |- context [if ?c then _ else _] => destruct c eqn:E2 end; cbn [rnum rden fst snd]; [lia|].
+    split; [lia|]. replace (Z.min 0 (Z.max (- 2 ^ (n - s)) r)) with (- 2 ^ (n - s)) by nia. ring.
+  - match goal with |- context [if ?c then _ else _] => destruct c eqn:E2 end; cbn [rnum rden fst snd].
+    + split; [lia|]. replace (Z.min 0 (Z.max (- 2 ^ (n - s)) r)) with 0 by nia. ring.
+    + split; [lia|]. replace (Z.min 0 (Z.max (- 2 ^ (n - s)) r)) with r by nia. rewrite P. ring.
+Qed.
+
+Lemma req_radd_rscale a b p q e : 0 < rden a -> 0 < rden b ->
+  req a (rscale (rofZ p) e) = true -> req b (rscale (rofZ q) e) = true -> req (radd a b) (rscale (rofZ (p + q)) e) = true.
+Proof.
+  unfold req, radd, rscale, rofZ, sc_num, sc_den. cbn [rnum rden fst snd]. intros Ha Hb H1 H2.
+  apply Z.eqb_eq in H1. apply Z.eqb_eq in H2. apply Z.eqb_eq.
+  destruct (0 <=? e).
+  - replace ((rnum a * rden b + rnum b * rden a) * 1) with ((rnum a * 1) * rden b + (rnum b * 1) * rden a) by ring.
+    rewrite H1, H2. ring.
+  - replace ((rnum a * rden b + rnum b * rden a) * (1 * 2 ^ (- e))) with ((rnum a * (1 * 2 ^ (- e))) * rden b + (rnum b * (1 * 2 ^ (- e))) * rden a) by ring.
+    rewrite H1, H2. ring.
+Qed.
+
+Theorem link_qr_xq_leaky c (has_rub : bool) s rub x :
+  qr_slope c = Some s -> 0 <= s <= qr_nsb c -> 0 < rden x -> 0 < rden rub ->
+  qr_rub c = (if has_rub then Some rub else None) ->
+  req (gen_qr_xq (qr_bits c) (qr_int c) true (qr_qclip c) has_rub (1, 2 ^ s) rub x) (qr_val c x) = true.
+Proof.
+  intros Sl [Hs Hsn] Xd Ud Hr. assert (Hn : 0 <= qr_nsb c) by lia.
+  assert (N : qr_bits c - b2z true = qr_nsb c) by (unfold qr_nsb; rewrite Sl; reflexivity).
+  set (n := qr_nsb c) in *. set (i := qr_int c).
+  set (p := rdiv (rmul x (rpow2 n)) (rpow2 i)).
+  set (pos := rmul (rpow2 i) (rclip (0, 1) (rsub (1, 1) (rdiv (1, 1) (rpow2 n))) (rdiv (rofZ (rround p)) (rpow2 n)))).
+  set (neg := rmul (rmul (rpow2 i) (1, 2 ^ s))
+                (rclip (rneg (1, 1)) (0, 1) (rmul (rofZ (rround (rmul p (1, 2 ^ s)))) (rdiv (rofZ 1) (rmul (1, 2 ^ s) (rpow2 n)))))).
+  set (core := radd pos neg).
+  assert (G : gen_qr_xq (qr_bits c) i true (qr_qclip c) has_rub (1, 2 ^ s) rub x =
+              if has_rub && negb (qr_qclip c) then (if rle core rub then core else rub) else core).
+  { unfold gen_qr_xq, core, pos, neg, p. rewrite N. reflexivity. }
+  rewrite G. clear G.
+  set (v := rscale (rofZ (qr_code c (rnum x) (rden x))) (qr_se c)).
+  assert (Ps : 0 < 2 ^ s) by (apply Z.pow_pos_nonneg; lia).
+  assert (Pi : 0 < rden (rpow2 i)) by (unfold rpow2; cbn [rden snd]; apply sc_den_pos; lia).
+  assert (Cv : req core v = true /\ 0 < rden core).
+  { unfold core, v. destruct x as [a b]. cbn [rnum rden fst snd] in *.
+    unfold qr_code, qr_se. rewrite Sl. fold n. fold i.
+    assert (R1 : rround p = rhe (sc_num a (n - i)) (sc_den b (n - i))) by (unfold p; apply round_p; lia).
+    assert (R2 : rround (rmul p (1, 2 ^ s)) = rhe (sc_num a (n - i - s)) (sc_den b (n - i - s))) by (unfold p; apply round_p2; lia).
+    set (r1 := rhe (sc_num a (n - i)) (sc_den b (n - i))) in *. set (r2 := rhe (sc_num a (n - i - s)) (sc_den b (n - i - s))) in *.
+    destruct (clip_frac r1 n Hn) as [Y1d Y1e]. destruct (clip_neg r2 n s (conj Hs Hsn)) as [Y2d Y2e].
+    assert (Qp : req pos (rscale (rofZ (clip 0 (2 ^ n - 1) r1)) (i - n)) = true /\ 0 < rden pos).
+    { unfold pos. rewrite R1. split; [apply scale_back; assumption|]. rewrite rden_rmul. nia. }
+    assert (Qn : req neg (rscale (rofZ (clip (- 2 ^ (n - s)) 0 r2)) (i - n)) = true /\ 0 < rden neg).
+    { unfold neg. rewrite R2. rewrite rmul_assoc'.
+      match goal with |- context [rclip ?a0 ?b0 ?c0] => set (y := rclip a0 b0 c0) in * end. split.
+      - apply scale_back; [exact Hn | rewrite rden_rmul; cbn [rden snd]; nia |].
+        rewrite rnum_rmul, rden_rmul. cbn [rnum rden fst snd].
+        assert (P : 2 ^ n = 2 ^ (n - s) * 2 ^ s) by (rewrite <- q2add by lia; f_equal; lia).
+        rewrite P. replace (1 * rnum y * (2 ^ (n - s) * 2 ^ s)) with ((rnum y * 2 ^ (n - s)) * 2 ^ s) by ring. rewrite Y2e. ring.
+      - rewrite !rden_rmul. cbn [rden snd]. nia. }
+    destruct Qp as [Qp Dp]. destruct Qn as [Qn Dn].
+    split.
+    - unfold qr_hi, qr_lo. rewrite Sl. fold n.
+      replace (n - i - s) with (n - i - s) by lia.
+      apply req_radd_rscale; assumption.
+    - unfold radd. cbn [rden snd]. nia. }
   destruct Cv as [Cv Cd].
   assert (Vd : 0 < rden v) by (unfold v, rscale; cbn [rden snd]; apply sc_den_pos; cbn; lia).
   unfold qr_val. fold v. rewrite Hr. destruct has_rub; cbn [andb].
